@@ -153,17 +153,27 @@ func (g *DirectedTargetGraph) GetDependants(target model.BuildNode) []model.Buil
 	return g.outEdges[target.GetLabel()]
 }
 
-// GetDescendants returns a list of nodes that are descendants (dependants) of the given node.
-// Recurses via the outEdges of each node.
+// GetDescendants returns a list of nodes that are descendants (transitive dependants) of the given node.
+// Recurses via the outEdges of each node; every descendant is visited and returned once,
+// in the order in which it is first reached.
 func (g *DirectedTargetGraph) GetDescendants(target model.BuildNode) []model.BuildNode {
 	var descendants []model.BuildNode
-	for _, descendant := range g.outEdges[target.GetLabel()] {
-		descendants = append(descendants, descendant)
+	visited := map[label.TargetLabel]bool{target.GetLabel(): true}
 
-		// Recurse
-		recursiveDescendants := g.GetDescendants(descendant)
-		descendants = append(descendants, recursiveDescendants...)
+	var visit func(node model.BuildNode)
+	visit = func(node model.BuildNode) {
+		for _, descendant := range g.outEdges[node.GetLabel()] {
+			if visited[descendant.GetLabel()] {
+				continue
+			}
+			visited[descendant.GetLabel()] = true
+			descendants = append(descendants, descendant)
+
+			// Recurse
+			visit(descendant)
+		}
 	}
+	visit(target)
 	return descendants
 }
 
